@@ -230,3 +230,4 @@ def run(ctx):
     r4 = ctx.rule('R4', 'commands saved to the backlog come back unchanged',
                   'AGREE')
     shared.backlog_round_trip(ctx, r4)
+    shared.rearrange_tail(ctx, r4)
